@@ -55,28 +55,22 @@ Theorem C14_exclusive_blocks_everything : forall (st : state) (c : change) kind 
 Proof. exact exclusive_blocks_everything. Qed.
 Print Assumptions C14_exclusive_blocks_everything.
 
-(* vice versa — PARTIAL with respect to the intended statement `a request that must run exclusively is rejected while
-   ANY other change is in progress`: proved for every in-progress change outside the loophole (a refresh-snap or
-   revert-snap change that is not a snapd downgrade; see C14_new_exclusive_vs_refresh_refuted) *)
-Theorem C14_new_exclusive_refused_partial : forall (st : state) (c : change) kind dg ignore same snaps tasks,
-  In c st -> c_ready c = false -> is_ignored c ignore = false -> loophole c = false ->
+(* vice versa: a request that must run exclusively (remodel, recovery-system creation/removal, snapd downgrade) is
+   rejected while ANY other change is in progress. The proof uses nondowngrade_blocks_new_exclusive = true, which the
+   translator reads off the refresh-snap / revert-snap clause on every run. *)
+Theorem C14_new_exclusive_refused : forall (st : state) (c : change) kind dg ignore same snaps tasks,
+  In c st -> c_ready c = false -> is_ignored c ignore = false ->
   rejected st (Request kind dg true ignore same snaps tasks) = true.
 Proof. exact new_exclusive_refused. Qed.
-Print Assumptions C14_new_exclusive_refused_partial.
+Print Assumptions C14_new_exclusive_refused.
 
-(* the intended statement is false of the faithful model: with an ordinary refresh-snap change in progress a remodel
-   request (on another snap) is accepted. Confirmed on the implementation on every run: KNOWN_FINDINGS key
-   new-exclusive-vs-refresh *)
-Theorem C14_new_exclusive_vs_refresh_refuted : exists (st : state) (c : change) (o : op),
-  In c st /\ c_ready c = false /\ (exists k dg ig same snaps tasks, o = Request k dg true ig same snaps tasks /\ is_ignored c ig = false)
-  /\ rejected st o = false.
-Proof.
-  exists loophole_state, (mkChange 1 (bs "refresh-snap") false [mkTask [1] false]),
-         (Request (bs "remodel") false true None true [2] [mkTask [2] false]).
-  split; [left; reflexivity|]. split; [reflexivity|]. split; [|exact (proj2 new_exclusive_loophole_witness)].
-  exists (bs "remodel"), false, None, true, [2], [mkTask [2] false]. split; reflexivity.
-Qed.
-Print Assumptions C14_new_exclusive_vs_refresh_refuted.
+(* regression witness of the repaired defect (fixed: line in KNOWN_FINDINGS, /repo commit ed8df80): with an ordinary
+   refresh-snap change in progress a remodel request on another snap used to be accepted; a request that need not run
+   exclusively still is *)
+Example C14_remodel_during_refresh_rejected :
+  rejected refresh_in_progress (Request (bs "remodel") false true None true [2] [mkTask [2] false]) = true /\
+  rejected refresh_in_progress (Request (bs "remodel") false false None true [2] [mkTask [2] false]) = false.
+Proof. exact remodel_during_refresh_rejected. Qed.
 
 (* an operation whose snap record changed while the request was being prepared is rejected *)
 Theorem C14_stale_snapstate_rejected : forall (st : state) kind dg re ignore snaps tasks,
